@@ -205,6 +205,21 @@ CHECKS = {
         technique="TLA+ input grammar + totality invariant, isolated runtime monitor on real code, TLC trace validation",
         design_ref="DESIGN.md section 5 C16",
     ),
+    "C04": dict(
+        level="exploration",
+        text=("ContainerShapes.tla enumerates the G1 grammar (every pair and the triples behind the listed heads over 56 box variants "
+              "that remove / duplicate / corrupt exactly the children and fields the decoder dereferences); the orchestrator applies the "
+              "mutation operators G2-G5 (size and largesize fields, count inflation for 16 counted box types, truncation at every box "
+              "boundary, deletion and swap) to every corpus file and a slice of G1; every input runs through DecodeFile / lazy / "
+              "DecodeFileSR under all four flag combinations and both box loops, followed by Info at four levels and Encode/EncodeSW "
+              "in both modes with and without optimisation, in isolated workers under recover(), a 6 s watchdog and ulimit -v; "
+              "Robust.tla's totality invariant (no panic, no fatal crash, 2 s + 20 us/byte, 16 MiB + 1024 x length) is validated by TLC "
+              "on every recorded outcome."),
+        note=("The decisive observation is the runtime monitor on the real code; TLC supplies the shape grammar and evaluates the "
+              "invariant on the recorded outcomes. Exhaustive over the stated grammar only, not over all byte strings."),
+        technique="TLA+ input grammar + totality invariant, isolated runtime monitor on real code, TLC trace validation",
+        design_ref="DESIGN.md section 5 C04",
+    ),
 }
 
 PENDING_REASON = "check not built yet in this revision (planned in DESIGN.md section 5); not claimed until its machinery exists"
